@@ -44,6 +44,27 @@ Proof. unfold hex_decode. destruct (Nat.odd (List.length t)); [discriminate|]. a
 Lemma hex_val_of_lower c x : hex_val (ascii_lower c) = Some x -> hex_val c = Some x.
 Proof. destruct c; intros H; vm_compute in H; try discriminate; injection H as <-; vm_compute; reflexivity. Qed.
 
+Lemma hex_decode_pairs_of_lower : forall b t, map ascii_lower t = hex_encode b -> hex_decode_pairs t = Ok b.
+Proof.
+  induction b as [|b0 r IH]; intros t H.
+  - destruct t; [reflexivity|discriminate].
+  - cbn [hex_encode] in H. destruct t as [|a [|c t]]; try discriminate. cbn [map] in H.
+    injection H as Ha Hc Ht. destruct (hex_pair b0) as [H1 H2].
+    rewrite <- Ha in H1. rewrite <- Hc in H2. apply hex_val_of_lower in H1. apply hex_val_of_lower in H2.
+    cbn [hex_decode_pairs]. rewrite H1, H2, (IH t Ht).
+    f_equal. f_equal. rewrite <- (n2b_b2n b0) at 3. f_equal. pose proof (N.div_mod' (b2n b0) 16). lia.
+Qed.
+
+Lemma hex_decode_iff t b : hex_decode t = Ok b <-> map ascii_lower t = hex_encode b.
+Proof.
+  split; [apply hex_decode_lower|]. intros H. unfold hex_decode.
+  assert (Hlen : List.length t = (2 * List.length b)%nat).
+  { rewrite <- (map_length ascii_lower), H. apply hex_encode_length. }
+  rewrite Hlen. replace (Nat.odd (2 * List.length b)) with false.
+  - now apply hex_decode_pairs_of_lower.
+  - symmetry. rewrite <- Nat.negb_even. rewrite Nat.even_mul. reflexivity.
+Qed.
+
 Open Scope Z_scope.
 
 Lemma sk_text_canonical t s : sk_from_str t = Ok s -> map ascii_lower t = sk_to_string s.
